@@ -27,7 +27,7 @@ from glom.grouping import Group, First, Max
 from ..runner import Sub, Mismatch, HarnessBug
 
 PROPERTY = 'C20'
-RULE = ('pool of 12 evaluations covering scope bindings, Vars/globals, modes, Group accumulators, argument-mode containers, '
+RULE = ('pool of 16 evaluations covering scope bindings, Vars/globals, modes, Group accumulators, argument-mode containers, '
         'shared spec objects, a shared scope= mapping and a shared Glommer, successful and failing (error trace text compared); '
         'all pairs x all interleavings and all triples x all interleavings (2 yield points each) are enumerated. '
         'Non-trivial = a schedule with >= 2 context switches, or a nesting of depth >= 2.')
@@ -125,6 +125,25 @@ def echo(*a, **kw):
     return ['echo', list(a), sorted(kw.items())]
 
 
+# two distinct exception classes with the same __name__ (two libraries' "Timeout")
+NetTimeout = type('Timeout', (Exception,), {'__module__': 'net'})
+DbTimeout = type('Timeout', (LookupError,), {'__module__': 'db'})
+EXPECT_CLASS = {'raise-net-timeout': NetTimeout, 'raise-db-timeout': DbTimeout}
+
+
+class Raiser(object):
+    def __init__(self, ctl, name, cls):
+        self.ctl, self.name, self.cls = ctl, name, cls
+        self.__name__ = name
+
+    def __call__(self, t):
+        self.ctl.point()
+        raise self.cls('%s timed out' % self.name)
+
+    def __repr__(self):
+        return 'Raiser(%s)' % self.name
+
+
 def make_pool():
     """fresh pool: list of (name, target factory, spec, how) ; several entries share spec objects on purpose"""
     ctl = Ctl()
@@ -150,6 +169,8 @@ def make_pool():
         ('shared-scope-error', lambda: {'inner-target': 1}, (A.globals.owner, y('t1'), 'missing.deeper'), ('scope', shared_scope)),
         ('glommer', lambda: {'g': [1, 2]}, (y('g1'), 'g', [y('g2')], Sum()), ('glommer', glommer)),
         ('glommer-error', lambda: {'g': 5}, (y('h1'), 'g', Coalesce([y('h2')], Match(str))), ('glommer', glommer)),
+        ('raise-net-timeout', lambda: {'r': 1}, (y('n1'), {'x': Raiser(ctl, 'net', NetTimeout)}), 'glom'),
+        ('raise-db-timeout', lambda: {'r': 2}, (y('d1'), {'x': Raiser(ctl, 'db', DbTimeout)}), 'glom'),
     ]
     return ctl, pool
 
@@ -169,6 +190,10 @@ def evaluate(entry):
             text = str(e)
         except Exception as e2:
             text = '<str failed: %r>' % (e2,)
+        want = EXPECT_CLASS.get(name)
+        if want is not None and not isinstance(e, want):
+            raise Mismatch('class-lost', 'evaluation %s raised %r (mro %s), which is not an instance of the class that was raised (%s.%s)'
+                           % (name, e, [c.__module__ + '.' + c.__name__ for c in type(e).__mro__[:4]], want.__module__, want.__name__))
         return ('err', type(e).__name__, ADDR.sub('', text))
 
 
@@ -179,6 +204,7 @@ def isolated():
     """outcome and yield count of every pool entry run alone (cached per process)"""
     if _ISO:
         return _ISO
+    iso_local = {}
     for rnd in range(2):
         ctl, pool = make_pool()
         for i, entry in enumerate(pool):
@@ -190,9 +216,10 @@ def isolated():
             n = len(counter.trace)
             ctl.sched = None
             if rnd == 0:
-                _ISO[i] = (out, n)
-            elif _ISO[i] != (out, n):
-                raise HarnessBug('pool entry %s is not deterministic in isolation: %r vs %r' % (entry[0], _ISO[i], (out, n)))
+                iso_local[i] = (out, n)
+            elif iso_local[i] != (out, n):
+                raise HarnessBug('pool entry %s is not deterministic in isolation: %r vs %r' % (entry[0], iso_local[i], (out, n)))
+    _ISO.update(iso_local)
     return _ISO
 
 
@@ -262,7 +289,7 @@ def check_schedule(recipe, ctx):
 # free-running threads
 
 def gen_free(draw):
-    n = 14
+    n = 16
     return {'assign': [draw(st.lists(st.integers(0, n - 1), min_size=2, max_size=4)) for _ in range(8)],
             'iterations': draw(st.sampled_from([20, 40]))}
 
@@ -298,7 +325,7 @@ def check_free(recipe, ctx):
 # re-entrancy
 
 def gen_reentrant(draw):
-    n = 14
+    n = 16
     def node(d):
         return {'entry': draw(st.integers(0, n - 1)),
                 'via': draw(st.sampled_from(['glom', 'spec', 'glommer'])),
@@ -363,6 +390,40 @@ def check_reentrant(recipe, ctx):
 
     top = {'entry': recipe['outer'], 'via': 'glom', 'catch': 'none', 'inner': recipe['nest']}
     run_level(top, 0)
+    # an inner error that travels out through an enclosing glom() call and is kept by the caller must still render
+    # its own trace after the enclosing calls have finished
+    kept = []
+    inner_i = recipe['nest']['entry'] % n
+    if iso[inner_i][0][0] == 'err':
+        name_i, tfac_i, spec_i, how_i = pool[inner_i]
+
+        def inner_call(t):
+            try:
+                if how_i == 'glom':
+                    return glom.glom(tfac_i(), spec_i)
+                if how_i[0] == 'scope':
+                    return glom.glom(tfac_i(), spec_i, scope=how_i[1])
+                return how_i[1].glom(tfac_i(), spec_i)
+            except Exception as e:
+                kept.append((e, ADDR.sub('', str(e))))
+                raise
+
+        def mid(t):
+            return glom.glom(t, (inner_call,))
+        try:
+            w = glom.glom({'w': 1}, Coalesce((mid,), Val('caught')))
+        except Exception as e:
+            w = ('raised', type(e).__name__)
+        if isinstance(kept[0][0], GlomError) and w != 'caught':
+            raise Mismatch('reentrant-wrapper', 'outer Coalesce did not catch the inner GlomError: %r' % (w,))
+        for e, text in kept:
+            later = ADDR.sub('', str(e))
+            if later != text:
+                raise Mismatch('inner-error-rewritten', 'the error of evaluation %s, kept by its caller, renders differently after the '
+                               'enclosing glom() calls finished:\n--- at catch time\n%s\n--- later\n%s' % (name_i, text, later))
+            if text != iso[inner_i][0][2]:
+                raise Mismatch('reentrant', 'evaluation %s nested at depth 3 gives trace\n%s\nbut alone\n%s' % (name_i, text, iso[inner_i][0][2]))
+        ctx.label('kept-inner-error')
     depth_max = max(d for d, _, _, _ in observed)
     ctx.label('depth-%d' % depth_max, 'catch-' + recipe['nest']['catch'])
     ctx.nontrivial(depth_max >= 2)
